@@ -37,11 +37,7 @@ Fixpoint entries (pre : path) (repro : bool) (rel : path) (t : tree) : list entr
   | Link tg mt => [mkEntry (pre ++ rel) (ELnk tg) link_mode (hdr_time repro mt)]
   | Dir m mt ch =>
       mkEntry (pre ++ rel) EDir m (hdr_time repro mt) ::
-      (fix go (l : list (name * tree)) : list entry :=
-         match l with
-         | [] => []
-         | (n, c) :: l' => entries pre repro (rel ++ [n]) c ++ go l'
-         end) ch
+      flat_map (fun nc => entries pre repro (rel ++ [fst nc]) (snd nc)) ch
   end.
 
 (* filepath.Walk sorts the names of every directory (sort.Strings = bytewise) *)
@@ -310,9 +306,7 @@ Fixpoint names_nodupb (l : list name) : bool :=
 Fixpoint wf_treeb (t : tree) : bool :=
   match t with
   | Dir _ _ ch =>
-      names_nodupb (map fst ch) &&
-      (fix go (l : list (name * tree)) : bool :=
-         match l with [] => true | (_, c) :: l' => wf_treeb c && go l' end) ch
+      names_nodupb (map fst ch) && forallb (fun nc => wf_treeb (snd nc)) ch
   | _ => true
   end.
 
@@ -321,9 +315,7 @@ Fixpoint modes_okb (t : tree) : bool :=
   | File _ m _ => m <=? 511
   | Link _ _ => true
   | Dir m _ ch =>
-      (m <=? 511) &&
-      (fix go (l : list (name * tree)) : bool :=
-         match l with [] => true | (_, c) :: l' => modes_okb c && go l' end) ch
+      (m <=? 511) && forallb (fun nc => modes_okb (snd nc)) ch
   end.
 
 (* all paths at which the tree has a symlink *)
@@ -331,9 +323,7 @@ Fixpoint link_paths (rel : path) (t : tree) : list path :=
   match t with
   | File _ _ _ => []
   | Link _ _ => [rel]
-  | Dir _ _ ch =>
-      (fix go (l : list (name * tree)) : list path :=
-         match l with [] => [] | (n, c) :: l' => link_paths (rel ++ [n]) c ++ go l' end) ch
+  | Dir _ _ ch => flat_map (fun nc => link_paths (rel ++ [fst nc]) (snd nc)) ch
   end.
 
 (* no proper non-empty prefix of q is one of the link paths *)
@@ -357,9 +347,7 @@ Fixpoint benignb (islink : path -> bool) (rel : path) (t : tree) : bool :=
       | None => false
       | Some q => prefixes_clear islink [] q
       end
-  | Dir _ _ ch =>
-      (fix go (l : list (name * tree)) : bool :=
-         match l with [] => true | (n, c) :: l' => benignb islink (rel ++ [n]) c && go l' end) ch
+  | Dir _ _ ch => forallb (fun nc => benignb islink (rel ++ [fst nc]) (snd nc)) ch
   end.
 
 Definition links_of (t : tree) (p : path) : bool := existsb (path_eqb p) (link_paths [] t).
